@@ -1140,6 +1140,7 @@ def must_call_census(ctx, crate, files):
     ctx.floor("functions compared with the must-call table", n, 1)
     loop_must_call_census(ctx, crate, files)
     co_exec_census(ctx, crate, files)
+    return_census(ctx, crate, files)
 
 
 def self_symmetry_sites(crate):
@@ -1585,3 +1586,109 @@ def _anchor_names(crate):
     if k not in crate._cache:
         crate._cache[k] = {kk.rsplit("::", 1)[1] for kk in mir._anchors()}
     return crate._cache[k]
+
+
+# ---------------------------------------------------------------------------- return-source census
+def return_kinds(crate, b):
+    """what a function can answer with, by kind: the constants it returns and the reviewed library functions whose result it
+    returns as it is (seen through private helpers that did not exist in the reviewed tree)"""
+    v = mir.inline_view(crate, b)
+    names = _anchor_names(crate)
+    out = set()
+    my_sig = ([b.local_ty(l) for l in range(1, b.argc + 1)], b.local_ty(0), b.impl_self)
+
+    def sibling(nm):
+        """a reviewed function of the same type with the same parameter and return types: another operation that could be asked
+        the same question (compose / compose_partial / compose_fresh, union / try_union ..)"""
+        for t in crate.by_name.get(nm, []):
+            if t.kind != "Closure" and t.id != b.id and ([t.local_ty(l) for l in range(1, t.argc + 1)], t.local_ty(0), t.impl_self) == my_sig:
+                return True
+        return False
+
+    def classify(r, depth=0):
+        r0 = r
+        # (keep clone / to_owned transparent, but a call that IS the answer counts)
+        r = strip_role(r)
+        if not isinstance(r, tuple) or depth > 6:
+            return
+        if r[0] == "const":
+            t = str(r[1])
+            # (numeric constants only: `true` / `false` answers come and go with the style a predicate is written in)
+            if re.match(r"^-?\d+(_[ui](8|16|32|64|128|size))?$", t):
+                out.add("const " + re.sub(r"_(u|i)(8|16|32|64|128|size)$", "", t))
+        elif r[0] == "call":
+            if r[1] in names and r[1] != b.name and sibling(r[1]):
+                out.add("call " + r[1])
+        elif r[0] == "phi":
+            for a in r[1]:
+                classify(a, depth + 1)
+        elif r[0] == "agg":
+            if isinstance(r[1], str) and r[1].split("::")[-1] in ("None", "Some", "Ok", "Err") and r[2]:
+                for a in r[2]:
+                    classify(a, depth + 1)
+    if b.local_ty(0) == "()":
+        return out
+    live_defs = [d for d in v.defs().get(0, []) if not v.blocks[d["bb"]]["cleanup"]]
+    for d in live_defs:
+        if d["kind"] == "assign":
+            classify(v.role_of_rvalue(d["rv"]))
+        else:
+            c = d["call"]
+            if c.callee and c.callee.name in names and c.callee.name != b.name and sibling(c.callee.name):
+                out.add("call " + c.callee.name)
+    if len(live_defs) <= 1:
+        # a function whose ONLY answer is another operation's result delegates unconditionally (a wrapper, or a refactoring that
+        # prepares the arguments and calls the sibling): no shortcut
+        out = {k for k in out if not k.startswith("call ")}
+    return out
+
+
+def return_table(crate):
+    per = {}
+    for b in crate.fns():
+        if b.kind == "Closure" or b.auto_derived or not (b.file or "").startswith("src/") or not b.name or (b.file or "").endswith(("tst.rs", "/check.rs", "debug.rs")):
+            continue
+        per.setdefault(_mc_key(b), []).append(b)
+    tab = {}
+    for k, bs in per.items():
+        if len(bs) == 1:
+            tab[k] = sorted(return_kinds(crate, bs[0]))
+    return tab
+
+
+def return_census(ctx, crate, files):
+    """RS: a function answers only with the kinds of value it answered with in the reviewed tree: no new constant answer (`=> 2`,
+    `return Vec::new()` is not a constant and not covered) and no new 'hand the question to another operation' (`return
+    self.compose_partial(other)`).  A fast path typically shows as exactly that."""
+    global _MUSTCALL
+    import json as _json, os as _os
+    if _MUSTCALL is None:
+        try:
+            _MUSTCALL = _json.load(open(_os.path.join(_os.path.dirname(_os.path.dirname(_os.path.abspath(__file__))), "mustcall.json")))
+        except Exception:
+            _MUSTCALL = {}
+    ref = _MUSTCALL.get("ret:" + (ctx.cur_cfg or "default")) or _MUSTCALL.get("ret:default")
+    if ref is None:
+        raise AnchorMissing("mustcall.json", "no return-source table")
+    by_key, by_name = {}, {}
+    for b in crate.fns():
+        if b.kind == "Closure" or not b.name:
+            continue
+        by_key.setdefault(_mc_key(b), []).append(b)
+        by_name.setdefault(b.name, []).append(b)
+    n = 0
+    for k, want in sorted(ref.items()):
+        f, name = k.rsplit("::", 1)
+        if f not in files:
+            continue
+        bs = by_key.get(k) or by_name.get(name, [])
+        if len(bs) != 1:
+            continue
+        b = bs[0]
+        n += 1
+        got = return_kinds(crate, b)
+        new = sorted(got - set(want))
+        ctx.check(not new, "new-answer:%s" % fkey(b), "%s answers with the kinds of value it did in the reviewed tree" % short(b.id),
+                  "%s can now answer with %s, which it never did in the reviewed tree: a shortcut that answers with a constant, or hands the question to another operation, in front of the computation the function is there for" % (short(b.id), new),
+                  where_of(b))
+    ctx.info("functions compared with the return-source table: %d" % n)
